@@ -4,7 +4,7 @@
 (* for every conflict-free table of at most GenMaxTab path patterns of the  *)
 (* pool (its first GenEnumN entries combined exhaustively, plus the listed *)
 (* extra tables) and every generated path.                                 *)
-EXTENDS FoxLookup, FoxMatch, Gen_Lookup, TLC
+EXTENDS FoxLookup, FoxMatch, Gen_Lookup, TLC, Json
 
 PToks == [i \in DOMAIN GenPool |-> Tokenize(GenPool[i])]
 ValidIdx == {i \in DOMAIN GenPool : Valid(GenPool[i])}
@@ -36,6 +36,8 @@ Agree(S, h, p) ==
 \* (an IF, not a disjunction: inside an action TLC explores both disjuncts)
 Check(S) == \A hi \in HostsFor(S), k \in DOMAIN GenPaths :
               IF Agree(S, GenHosts[hi], GenPaths[k]) THEN TRUE
+              ELSE IF GenCollect THEN \* witness collection: report every disagreement and go on
+                   PrintT("VEC" \o ToJson([t |-> SetToSeq(S), h |-> hi, p |-> k]))
               ELSE Assert(FALSE, <<"walk and reference disagree", {GenPool[i] : i \in S}, GenHosts[hi], GenPaths[k],
                                    Lookup(TableOf(S), GenHosts[hi], GenPaths[k]),
                                    Selected(LookupRoot(Canonical({GenPool[i] : i \in S}), StripHostPort(GenHosts[hi]), GenPaths[k]))>>)
